@@ -6,7 +6,7 @@ from ..spec import And, Or, Not, Implies, tb, same_type_eq
 from ..values import SymInt, SymBool, SymStr, SymFloat, zint, mkint, mkbool, cps_of, zcp, mkstr, in_ranges
 from .. import engine as E
 from .. import symre
-from .common import ok_result, err_is, is_record, isint, isstr, isnum, DIGITS
+from .common import ok_result, err_is, is_record, isint, isstr, isnum, DIGITS, LETTERS
 
 
 def digits_value(cps):
@@ -29,27 +29,39 @@ class NumericLiterals(_Sym):
     doc = 'a numeric literal (digits, digits.digits, .digits, integer%, integer^integer) evaluates to exactly the number it spells'
     functions = ('grammarparser.lexer.t_NUMBER', 'grammarparser.lexer.t_DECIMAL', 'grammarparser.lexer.t_PERCENT',
                  'grammarparser.lexer.t_CARET', 'grammarparser.parser.p_expression_number', 'helper.number.to_number')
-    bounds = 'digit strings of 1..4 digits per part (symbolic text); exponent of d^d one digit 0..9 with a base of 1..2 digits; ' \
-             'decimal values compared as the correctly rounded quotient digits / 10^k (what float() of the spelling is)'
+    bounds = 'digit strings (symbolic text, leading zeros included) of 1..6 digits (quick) / 1..9 (thorough) for integers and ' \
+             'percentages, integers of 12, 16, 17, 20 (thorough: 24, 32) digits, 1..4 / 1..6 digits per part for decimals; d^d with a base of 1..2 digits (thorough: 1..3) and an exponent ' \
+             'of one digit (thorough: also two digits, 00..29); decimal values compared as the correctly rounded quotient ' \
+             'digits / 10^k (what float() of the spelling is)'
 
     def cases(self, tier):
         out = []
-        ds = (1, 2, 3, 4)
-        for a in ds:
+        th = tier == 'thorough'
+        for a in range(1, 10 if th else 7):
             out.append({'form': 'int', 'a': a, 'b': 0})
             out.append({'form': 'pct', 'a': a, 'b': 0})
-        for a in ds if tier == 'thorough' else (1, 2, 3):
-            for b in ds if tier == 'thorough' else (1, 2, 3):
+        for a in (12, 16, 17, 20) + ((24, 32) if th else ()):
+            # beyond 2^53: an integer literal is still exactly the integer it spells
+            out.append({'form': 'int', 'a': a, 'b': 0})
+        out.append({'form': 'pow', 'a': 17, 'b': 1})
+        ds = range(1, 7 if th else 5)
+        for a in ds:
+            for b in ds:
                 out.append({'form': 'dec', 'a': a, 'b': b})
-        for b in ds:
+        for b in range(1, 9 if th else 7):
             out.append({'form': 'dot', 'a': 0, 'b': b})
-        for a in (1, 2):
+        for a in (1, 2, 3) if th else (1, 2):
             out.append({'form': 'pow', 'a': a, 'b': 1})
+        if th:
+            for a in (1, 2):
+                out.append({'form': 'pow', 'a': a, 'b': 2})
         return out
 
     def build(self, e, p):
         a = e.fresh_str('a', p['a'], alphabet=DIGITS) if p['a'] else ''
         b = e.fresh_str('b', p['b'], alphabet=DIGITS) if p['b'] else ''
+        if p['form'] == 'pow' and p['b'] == 2:
+            e.add(zcp(b.cps[0]) <= 50)        # exponents 00..29
         return {'a': a, 'b': b}
 
     def text(self, inp, p):
@@ -76,7 +88,7 @@ class NumericLiterals(_Sym):
             k = p['b']
             return r == (va * 10 ** k + vb) / 10 ** k
         from ..values import concretize_int
-        kb = concretize_int(vb, 0, 9, 'exponent') if env.symbolic else vb
+        kb = concretize_int(vb, 0, 29, 'exponent') if env.symbolic else vb
         return r == va ** kb
 
 
@@ -85,10 +97,10 @@ class QuotedLiterals(_Sym):
     name = 'C05.strings'
     doc = 'a quoted literal evaluates to exactly the characters between its quotes'
     functions = ('grammarparser.lexer.t_STRING', 'grammarparser.parser.p_expression_string')
-    bounds = 'bodies of 0..3 (quick) / 0..5 (thorough) arbitrary code points other than the delimiting quote; both quote kinds'
+    bounds = 'bodies of 0..5 (quick) / 0..8 (thorough) arbitrary code points other than the delimiting quote; both quote kinds'
 
     def cases(self, tier):
-        return [{'q': q, 'len': n} for q in (34, 39) for n in range(0, 4 if tier == 'quick' else 6)]
+        return [{'q': q, 'len': n} for q in (34, 39) for n in range(0, 6 if tier == 'quick' else 9)]
 
     def build(self, e, p):
         if p['len'] == 0:
@@ -115,6 +127,14 @@ WS_SKELETONS = [
     ['A1', ':', 'B2'],
     ['(', 'va', '-', 'vb', ')', '/', '4'],
     ['va', '<=', 'vb'],
+    ['IFERROR(', '#N/A', ',', '1', ')'],
+    ['$A$1', '+', 'b2'],
+    ['va', '<>', 'vb'],
+    ['SUM(', 'MAX(', 'va', ',', '1', ')', ',', 'vb', ')'],
+    ['"a b"', '&', "'c d'"],
+    ['-', '(', 'va', ')'],
+    ['{', '1', ',', '2', ';', '3', ',', '4', '}'],
+    ['va', '=', 'TRUE'],
 ]
 
 
@@ -123,9 +143,10 @@ class Whitespace(_Sym):
     name = 'C05.whitespace'
     doc = 'whitespace between tokens (other than between a function name and its opening parenthesis) never changes the outcome'
     functions = ('grammarparser.lexer.t_WHITESPACE', 'ply.lex.Lexer.token')
-    bounds = '%d formula skeletons; at one token boundary at a time (every boundary in turn) a symbolic whitespace string of ' \
-             'length 1..2 over every character the lexer\'s \\s class accepts; variable values symbolic integers' % len(WS_SKELETONS)
-    outside = ('whitespace at several boundaries at once beyond the two-boundary combinations of the thorough tier',)
+    bounds = '%d formula skeletons; a symbolic whitespace string over every character the lexer\'s \\s class accepts: of length ' \
+             '1..2 at one token boundary at a time (every boundary in turn), of length 1 at every pair of boundaries, and at ALL ' \
+             'boundaries at once; thorough: also every triple of boundaries and length 3; variable values symbolic integers' % len(WS_SKELETONS)
+    outside = ('whitespace strings longer than 3',)
 
     def cases(self, tier):
         out = []
@@ -133,9 +154,14 @@ class Whitespace(_Sym):
             for pos in range(0, len(sk) + 1):
                 for n in (1, 2):
                     out.append({'sk': i, 'pos': [pos], 'n': n})
+            for a, b in itertools.combinations(range(len(sk) + 1), 2):
+                out.append({'sk': i, 'pos': [a, b], 'n': 1})
+            out.append({'sk': i, 'pos': list(range(len(sk) + 1)), 'n': 1})
             if tier == 'thorough':
-                for a, b in itertools.combinations(range(len(sk) + 1), 2):
-                    out.append({'sk': i, 'pos': [a, b], 'n': 1})
+                for pos in range(0, len(sk) + 1):
+                    out.append({'sk': i, 'pos': [pos], 'n': 3})
+                for t in itertools.combinations(range(len(sk) + 1), 3):
+                    out.append({'sk': i, 'pos': list(t), 'n': 1})
         return out
 
     def build(self, e, p):
@@ -185,11 +211,11 @@ class Slots(Harness):
           'blank, whichever of , ; \\ separates them; the three separators give the same outcome'
     functions = ('grammarparser.parser.p_expseq_comma', 'grammarparser.parser.p_expseq_semicolon', 'grammarparser.parser.p_expseq_backslash',
                  'grammarparser.parser.p_expression_wargs', 'Parser.call_function')
-    bounds = 'every present/absent pattern of 1..4 slots (quick) / 1..6 (thorough) x 3 separators; present slots hold symbolic ' \
-             'integers or the separator character itself as a text value'
+    bounds = 'every present/absent pattern of 1..6 slots (quick) / 1..8 (thorough) x 3 separators; present slots hold symbolic ' \
+             'integers or (patterns of up to 4 slots) the separator character itself as a text value'
 
     def cases(self, tier):
-        mx = 4 if tier == 'quick' else 6
+        mx = 6 if tier == 'quick' else 8
         out = []
         for n in range(1, mx + 1):
             for pat in itertools.product((0, 1), repeat=n):
@@ -205,7 +231,7 @@ class Slots(Harness):
 
     def run(self, env, inp, p):
         outs = {}
-        names = ['v%s' % 'abcdef'[i] for i in range(len(p['pat']))]
+        names = ['v%s' % 'abcdefgh'[i] for i in range(len(p['pat']))]
         for sname, sep in SEPS.items():
             P = env.Parser()
             got = []
@@ -245,40 +271,148 @@ class Slots(Harness):
 
 
 @register
-class ArrayLiterals(Harness):
+class ArrayLiterals(_Sym):
     name = 'C05.arrays'
-    prop = 'C05'
     doc = 'an accepted array literal written with one separator kind is a flat list, and one with ; between two comma- or ' \
           'backslash-separated rows is the list of those two rows'
     functions = ('grammarparser.parser.p_array', 'grammarparser.parser.p_expseq_semicolon')
-    bounds = 'flat literals of 1..4 symbolic integers with each separator; two rows of 2..3 items'
+    bounds = 'flat literals of 1..6 (quick) / 1..9 (thorough) symbolic integers with each separator; two rows of 2..4 and 1..4 ' \
+             'items (row lengths independent; a one-item second row only if the literal is accepted); items written as variables, or as literals (signed one-digit numbers and ' \
+             'one-letter quoted texts alternating, at most 6 items)'
 
     def cases(self, tier):
-        out = [{'rows': 1, 'n': n, 'sep': s} for n in (1, 2, 3, 4) for s in SEPS]
-        out += [{'rows': 2, 'n': n, 'sep': s} for n in (2, 3) for s in ('comma', 'back')]
+        out = [{'rows': 1, 'n': n, 'm': 0, 'sep': s, 'lit': l} for n in range(1, 7 if tier == 'quick' else 10) for s in SEPS for l in (0, 1) if not (l and n > 6)]
+        out += [{'rows': 2, 'n': n, 'm': m, 'sep': s, 'lit': l} for n in (2, 3, 4) for m in (1, 2, 3, 4) for s in ('comma', 'back')
+                for l in (0, 1) if n + m <= (6 if l else 8)]
         return out
 
     def build(self, e, p):
-        return {'xs': [e.fresh_int('x%d' % i, -99, 99) for i in range(p['n'] * p['rows'])]}
+        k = p['n'] + p['m']
+        if p['lit']:
+            xs = []
+            for i in range(k):
+                if i % 2 == 0:
+                    xs.append(e.fresh_str('d%d' % i, 1, alphabet=DIGITS))
+                else:
+                    xs.append(e.fresh_str('s%d' % i, 1, alphabet=LETTERS))
+            return {'xs': xs}
+        return {'xs': [e.fresh_int('x%d' % i, -99, 99) for i in range(k)]}
 
     def run(self, env, inp, p):
-        names = ['v%s' % 'abcdef'[i] for i in range(len(inp['xs']))]
+        xs = inp['xs']
+        if p['lit']:
+            # items 0, 4, 8 are negative one-digit numbers, 2, 6 positive ones, odd items quoted one-character texts
+            names = [(('-' if i % 4 == 0 else '') + x) if i % 2 == 0 else ('"' + x + '"') for i, x in enumerate(xs)]
+            variables = {}
+        else:
+            names = ['v%s' % 'abcdefghi'[i] for i in range(len(xs))]
+            variables = dict(zip(names, xs))
         sep = SEPS[p['sep']]
+
+        def join(items):        # str.join does not take symbolic texts
+            t = items[0]
+            for x in items[1:]:
+                t = t + sep + x
+            return t
         if p['rows'] == 1:
-            text = '{' + sep.join(names) + '}'
+            text = '{' + join(names) + '}'
         else:
             n = p['n']
-            text = '{' + sep.join(names[:n]) + ';' + sep.join(names[n:]) + '}'
-        return self.parse_with(env, text, dict(zip(names, inp['xs'])))
+            text = '{' + join(names[:n]) + ';' + join(names[n:]) + '}'
+        return self.parse_with(env, text, variables)
 
     def post(self, env, inp, out, p):
+        if p['rows'] == 2 and p['m'] == 1 and is_record(out) and out['error'] is not None:
+            return True     # "an ACCEPTED array literal": a one-item row is not a separated row, rejection is not a violation
         if not ok_result(out):
             return False
         r = out['result']
-        xs = inp['xs']
+        xs = list(inp['xs'])
+        if p['lit']:
+            xs = [(digits_value(cps_of(x)) * (-1 if i % 4 == 0 else 1)) if i % 2 == 0 else x for i, x in enumerate(xs)]
         if p['rows'] == 1:
             want = list(xs)
         else:
             want = [list(xs[:p['n']]), list(xs[p['n']:])]
-        from .c18 import eq_list
-        return eq_list(r, want)
+
+        def eq(r, w):
+            if isinstance(w, list):
+                return isinstance(r, list) and len(r) == len(w) and And(*[eq(x, y) for x, y in zip(r, w)])
+            if isstr(w):
+                return isstr(r) and r == w
+            return isint(r) and r == w
+        return eq(r, want)
+
+
+CASE_SHAPES = ['%s', '%s+1', 'SUM(%s:%s)', '-%s', 'SUM(%s,%s)']
+
+
+@register
+class CellCase(_Sym):
+    name = 'C05.cellcase'
+    doc = 'cell references are case-insensitive: a reference written in any mix of upper- and lower-case letters gives the host ' \
+          'the same events (label, coordinates, markers) and the formula the same outcome as the upper-case spelling'
+    functions = ('grammarparser.lexer.t_ABSOLUTE_CELL', 'grammarparser.lexer.t_MIXED_CELL', 'grammarparser.lexer.t_RELATIVE_CELL',
+                 'Parser.call_cell_value', 'Parser.call_range_value', 'helper.cell.extract_label')
+    bounds = 'labels $?[A-Za-z]{1,3}$?[1-9][0-9]{0,2} (symbolic, every $ pattern) in %d formula shapes with one or two references; ' \
+             'the host value depends on the label text and coordinates it receives' % len(CASE_SHAPES)
+
+    def cases(self, tier):
+        out = []
+        for sh in range(len(CASE_SHAPES)):
+            for nl in (1, 2, 3):
+                for ca in (0, 1):
+                    for ra in (0, 1):
+                        out.append({'sh': sh, 'nl': nl, 'nd': 1 + (nl + sh) % 3, 'ca': ca, 'ra': ra})
+        return out
+
+    def build(self, e, p):
+        from .c10 import make_label
+        k = CASE_SHAPES[p['sh']].count('%s')
+        labs = []
+        for i in range(k):
+            # the second reference has the complementary $ pattern
+            ca, ra = (p['ca'], p['ra']) if i == 0 else (1 - p['ca'], 1 - p['ra'])
+            lab, col, row = make_label(e, 'l%d' % i, p['nl'], p['nd'], ca, ra)
+            labs.append(lab)
+        return {'labs': labs, 'v': e.fresh_int('v', -50, 50)}
+
+    def run(self, env, inp, p):
+        from .c19 import upper_cps
+        outs = []
+        for upper in (False, True):
+            labs = [mkstr(upper_cps(cps_of(l))) if upper else l for l in inp['labs']]
+            P = env.Parser()
+            events = []
+
+            def on_cell(cell, setter):
+                events.append(('cell', cell.label, cell.row.index, cell.col.index, cell.row.is_absolute, cell.col.is_absolute, cell.row.label, cell.col.label))
+                setter(inp['v'] + cell.row.index)
+
+            def on_range(a, b, setter):
+                events.append(('range', a.label, b.label, a.row.index, a.col.index, b.row.index, b.col.index, a.col.label, b.col.label,
+                               a.row.is_absolute, a.col.is_absolute, b.row.is_absolute, b.col.is_absolute))
+                setter([inp['v'], a.col.index])
+            P.on('callCellValue', on_cell)
+            P.on('callRangeValue', on_range)
+            text = CASE_SHAPES[p['sh']]
+            parts = text.split('%s')
+            t = parts[0]
+            for lab, rest in zip(labs, parts[1:]):
+                t = t + lab + rest
+            outs.append((P.parse(t), events))
+        return outs
+
+    def post(self, env, inp, out, p):
+        if isinstance(out, Raised):
+            return False
+        (o1, ev1), (o2, ev2) = out
+        if not (is_record(o1) and is_record(o2)) or len(ev1) != len(ev2) or not ev1:
+            return False
+        cl = [o1['error'] == o2['error'], same_type_eq(o1['result'], o2['result'])]
+        for a, b in zip(ev1, ev2):
+            if len(a) != len(b) or a[0] != b[0]:
+                return False
+            for x, y in zip(a[1:], b[1:]):
+                cl.append(same_type_eq(x, y))
+        return And(*cl)
